@@ -7,4 +7,24 @@ NOTES = "Solver-based checking of the real code; see DESIGN.md. Under constructi
 PENDING = "check under construction in this session (see DESIGN.md section 3); not yet claimed"
 NOT_APPLICABLE = {f"C{i:02d}": PENDING for i in range(1, 21)}
 NOT_APPLICABLE["C12"] = "hash-seed / history determinism of the whole pipeline cannot be encoded for a solver: the nondeterminism sources (SipHash set order, global UFL counters) are not function inputs and only re-running subprocesses (sampling, another technique family) decides it; see DESIGN.md section 4"
-CHECKS = {}
+TB = "Trusted base: UFL lowering (compute_form_data), basix (tabulation, quadrature, reference geometry), numpy, gcc -E + pycparser front-end, z3; exact real/complex arithmetic instead of floating point; bounded corpus of forms (programs) as listed in the evidence; box |w|,|c|<=2, coordinates within +-2, every divisor bounded away from 0 by 0.05; atoms identified at 1e-11."
+CHECKS = {
+ "C01": dict(engine="ksym+uflref+eqcheck", level="translation_validation", ref="DESIGN.md section 3 C01",
+   text="The C text the compiler emits now for every cell integral of a bounded corpus (scalar/vector/mixed/Piola/enriched/real/quadrature elements, affine, curved and manifold geometry, arity 0-2) is executed symbolically with all kernel inputs as symbols and compared entry by entry with an independent UFL evaluator; z3 (QF_LRA, independent-monomial abstraction) proves |K-R| <= 1e-9 relative pointwise for all inputs in the box, or a witness is replayed on the gcc build. Per-program translation validation is the right level: the compiler is too large to verify once and for all, its output per program is a small loop program that can be decided for every input.",
+   note=TB, technique="symbolic execution of generated C + SMT (z3 QF_LRA) equivalence against a UFL reference evaluator"),
+ "C02": dict(engine="ksym+uflref+eqcheck", level="translation_validation", ref="DESIGN.md section 3 C02",
+   text="Same as C01 for exterior-facet, interior-facet and vertex kernels: every local entity index (every (+,-) facet pair in the thorough tier) is enumerated, w/c/coordinates of both cells are symbolic, the oracle maps reference facet points and lays out A, w and coordinate_dofs as the UFCx contract states; permutation codes (0,0) here, the others in C03.",
+   note=TB, technique="symbolic execution of generated C + SMT (z3 QF_LRA) equivalence against a UFL reference evaluator, entities enumerated"),
+ "C07": dict(engine="ksym+eqcheck", level="other", ref="DESIGN.md section 3 C07",
+   text="Every kernel of the corpus is executed with a symbolic initial A; z3 decides (Q-dep) that A_final - A_initial does not depend on any initial-A symbol; the executor's memory monitors show no store to an input or table, no uninitialised value reaching A, no non-const static and no file-scope object referenced. Holds for all inputs of each kernel; thread-safety is argued from these facts, not explored.",
+   note=TB + " Concurrency is not explored (argued from re-entrancy).", technique="symbolic execution of generated C with symbolic initial A + z3 dependence query"),
+ "C08": dict(engine="ksym(sites)+z3", level="other", ref="DESIGN.md section 3 C08",
+   text="For every array access site of every generated kernel (loops NOT unrolled) one QF_LIA query asks for loop indices, entity index and permutation code within their ranges that put a subscript outside the declared extent (locals/tables) or the extent the form implies (parameters); unsat for all sites = in bounds for every iteration and every valid entity/permutation. A sat model is replayed under ASan/UBSan with exact-size heap buffers.",
+   note="Extents of parameters are computed by the harness from UFL/basix element dimensions; gcc sanitizers are the replay oracle; corpus of forms is bounded.", technique="QF_LIA (z3) bounds query per access site of the generated C, ASan replay"),
+ "C10": dict(engine="ksym+eqcheck(kvk)", level="translation_validation", ref="DESIGN.md section 3 C10",
+   text="The same form is compiled under two option sets (sum_factorization on/off with tensor-product elements; part=diagonal vs full; table_rtol/atol pairs; options on integrals they do not apply to) and both texts are executed on the same symbolic inputs; z3 decides equality (exact where tables are identical, pointwise-relative otherwise) for every entry; counterexamples are replayed on both gcc builds.",
+   note=TB + " A Python exception raised for an option/cell combination is recorded as an explicit rejection, not as a changed tensor.", technique="symbolic execution of two generated kernels + SMT equivalence (z3 polynomial disequality / QF_LRA)"),
+ "C17": dict(engine="ksym+eqcheck(kvk), lnodes_sym", level="other", ref="DESIGN.md section 3 C17",
+   text="(b) every corpus kernel is generated with and without the optimiser passes (module-attribute replacement, no source hook) and the two texts are proved equal for all inputs (Q-ident, exact); (a) the lnodes operator overloads are executed on symbolic literal values and their result tree is compared with the unsimplified operation.",
+   note=TB, technique="symbolic execution + z3 polynomial identity of optimised vs unoptimised kernels; symbolic execution of lnodes overloads"),
+}
